@@ -57,7 +57,13 @@ static struct nv_gvec nv_grad_vector(const struct nv_t4* t, int64_t s)
   v.sample = s;
   return v;
 }
-static double nv_lpnorm(struct nv_gvec v) { return v.sample == nv_sample_g ? nv_gnorm_g : nv_nondet_double(); }
+/* ASSUMED contract of Eigen's lpNorm<2>() (= sqrt of a sum of squares): never negative (it may be NaN / +inf) */
+static double nv_lpnorm(struct nv_gvec v)
+{
+  double r = v.sample == nv_sample_g ? nv_gnorm_g : nv_nondet_double();
+  __CPROVER_assume(!(r < 0.0));
+  return r;
+}
 /* m_weights(i) as an lvalue: one cell is tracked (position nv_g); writes are counted and must come in order 0, 1, 2 ... */
 static double* nv_wvec_ref(struct nv_wvec* w, int64_t i)
 {
@@ -100,6 +106,10 @@ static struct nv_rng nv_make_rng_unseeded(void)
 }
 
 #define NV_RET __CPROVER_return_value
+/* ghost: the address of the sampler's own generator m_rng (fixed in the requires clause of sample(), compared by value only): every
+ * sampler must be driven by THAT generator -- it is seeded from the constructor's seed argument (gboost_sampler_ctor) and advanced by
+ * nothing else, so equal seeds and equal call histories give equal samples.  A local / static / global generator fails this clause. */
+struct nv_rng* nv_member_rng;
 /* class invariant of sampler_t established by its constructor and relied upon by sample() */
 #define NV_GS_NOWEIGHTS(t) ((t) == NVE_gboost_subsample_off || (t) == NVE_gboost_subsample_bootstrap)
 #define NV_GS_INV(s) ((s)->m_weights.n == (NV_GS_NOWEIGHTS((s)->m_type) ? 0 : (s)->m_samples.n) && (s)->m_weights.filled == 0)
@@ -110,15 +120,21 @@ __CPROVER_ensures(self->m_samples.n == samples->n && self->m_type == type && NV_
 /* ---- callee contracts = what spec.py/build_sampler proves (back end B) */
 struct nv_sel sample_without_replacement(struct nv_ilist samples, int64_t count, struct nv_rng* rng)
 __CPROVER_requires(0 <= count && count <= samples.n && __CPROVER_is_fresh(rng, sizeof(*rng)))
+__CPROVER_requires(rng == nv_member_rng)
 __CPROVER_assigns(*rng)
 __CPROVER_ensures(NV_RET.n == count && NV_RET.sorted && NV_RET.members && NV_RET.distinct && !NV_RET.whole);
 struct nv_sel sample_with_replacement(struct nv_ilist samples, int64_t count, struct nv_rng* rng)
 __CPROVER_requires(0 <= count && samples.n >= 1 && __CPROVER_is_fresh(rng, sizeof(*rng)))
+__CPROVER_requires(rng == nv_member_rng)
 __CPROVER_assigns(*rng)
 __CPROVER_ensures(NV_RET.n == count && NV_RET.sorted && NV_RET.members && !NV_RET.whole);
-/* weighted: requires the library's asserts (sizes agree) and every weight initialised */
+/* weighted: requires the library's asserts (sizes agree, no negative weight: stated at the ghost position nv_g = for every position) and
+ * every weight initialised.  NOT required here (cannot be established at the call site, see spec.py `assumptions`): a positive total weight. */
+#define NV_NO_NEGATIVE_WEIGHT(w) (!(0 <= nv_g && nv_g < (w).n) || !((w).at_g < 0.0))
 struct nv_sel sample_with_replacement_weighted(struct nv_ilist samples, struct nv_wvec weights, int64_t count, struct nv_rng* rng)
 __CPROVER_requires(0 <= count && samples.n >= 1 && weights.n == samples.n && weights.filled == weights.n && __CPROVER_is_fresh(rng, sizeof(*rng)))
+__CPROVER_requires(NV_NO_NEGATIVE_WEIGHT(weights))
+__CPROVER_requires(rng == nv_member_rng)
 __CPROVER_assigns(*rng)
 __CPROVER_ensures(NV_RET.n == count && NV_RET.sorted && NV_RET.members && NV_RET.poswt && !NV_RET.whole);
 
@@ -131,8 +147,12 @@ __CPROVER_requires(__CPROVER_is_fresh(self, sizeof(*self)) && __CPROVER_is_fresh
 __CPROVER_requires(0.0 < self->m_ratio && self->m_ratio <= 1.0 && self->m_type <= 4 && 1 <= self->m_samples.n && self->m_samples.n <= NV_MAXN) \
 /* established by the constructor: m_weights has one entry per sample for the weighted modes (none otherwise) */ \
 __CPROVER_requires(NV_GS_INV(self)) \
+__CPROVER_requires(nv_member_rng == &self->m_rng) \
 /* shapes: errors_losses is (2, samples), gradients is (samples, ...) */ \
 __CPROVER_requires(errors_losses->rows == 2 && errors_losses->cols == nv_total && gradients->dim0 == nv_total && nv_total >= 0) \
+/* the loss value of a training sample is not negative (row 1 of errors_losses is written by gboost::evaluate from loss_t::value; C06 proves \
+ * value >= 0 for the losses over the reals): needed by the loss-weighted mode only */ \
+__CPROVER_requires(self->m_type != NVE_gboost_subsample_wei_loss_bootstrap || !(nv_loss_g < 0.0)) \
 __CPROVER_assigns(self->m_rng, self->m_weights) \
 __CPROVER_ensures(self->m_type == NVE_gboost_subsample_off ==> (NV_RET.whole && NV_RET.n == self->m_samples.n)) \
 __CPROVER_ensures(self->m_type != NVE_gboost_subsample_off ==> (NV_RET.n == NV_COUNT && 0 <= NV_RET.n && NV_RET.n <= self->m_samples.n && NV_RET.sorted && NV_RET.members && !NV_RET.whole)) \
@@ -144,10 +164,10 @@ __CPROVER_ensures((self->m_type == NVE_gboost_subsample_wei_grad_bootstrap && 0 
 #define NV_LOOP_gboost_sample_1 \
 __CPROVER_assigns(i, self->m_weights) \
 __CPROVER_loop_invariant(0 <= i && i <= size && size == self->m_samples.n && self->m_weights.n == size && self->m_weights.filled == i) \
-__CPROVER_loop_invariant((0 <= nv_g && nv_g < i) ==> NV_SAME(self->m_weights.at_g, nv_loss_g)) \
+__CPROVER_loop_invariant((0 <= nv_g && nv_g < i) ==> (NV_SAME(self->m_weights.at_g, nv_loss_g) && !(self->m_weights.at_g < 0.0))) \
 __CPROVER_decreases(size - i)
 #define NV_LOOP_gboost_sample_2 \
 __CPROVER_assigns(i, self->m_weights) \
 __CPROVER_loop_invariant(0 <= i && i <= size && size == self->m_samples.n && self->m_weights.n == size && self->m_weights.filled == i) \
-__CPROVER_loop_invariant((0 <= nv_g && nv_g < i) ==> NV_SAME(self->m_weights.at_g, nv_gnorm_g)) \
+__CPROVER_loop_invariant((0 <= nv_g && nv_g < i) ==> (NV_SAME(self->m_weights.at_g, nv_gnorm_g) && !(self->m_weights.at_g < 0.0))) \
 __CPROVER_decreases(size - i)
